@@ -262,3 +262,22 @@ Proof.
   apply tcase_ext; try assumption; try congruence.
   rewrite Hz2, Hz1, Hz3. apply spec_rm_adjacent; lia.
 Qed.
+
+(* every non-reducible part survives any removal, in its place among the non-reducible parts *)
+Lemma spec_rm_keeps_nonred : forall lo hi l r,
+  filter nonred (spec_rm lo hi r l) = filter nonred l.
+Proof.
+  intros lo hi l. induction l as [|[p b] l IH]; intros r; [reflexivity|].
+  destruct b; cbn [spec_rm].
+  - destruct ((lo <=? r) && (r <? hi)); cbn [filter nonred snd negb]; apply IH.
+  - cbn [filter nonred snd negb]. f_equal. apply IH.
+Qed.
+
+Lemma rmslice_keeps_nonred : forall t (a b : Z) t', wf t -> rmslice t a b = Ok t' ->
+  py_clamp (tc_len t) a <= py_clamp (tc_len t) b ->
+  filter nonred (zipped t') = filter nonred (zipped t).
+Proof.
+  intros t a b t' Hwf Hrm Hle.
+  destruct (rmslice_spec t a b t' Hwf Hrm Hle) as (_ & Hz & _).
+  rewrite Hz. apply spec_rm_keeps_nonred.
+Qed.
